@@ -245,6 +245,15 @@ func c16Reg(v uint16) string {
 	if r.Hi != uint8(v>>8) || r.Lo != uint8(v) {
 		return fmt.Sprintf("SetU16(%04x): Hi=%02x Lo=%02x", v, r.Hi, r.Lo)
 	}
+	// whatever the register held before (a neighbour of the new value, a value sharing one half with it, ...)
+	for _, before := range []uint16{v - 1, v + 1, v - 0x100, v + 0x100, v ^ 0xFF00, v ^ 0x00FF, v, 0, 0xFFFF} {
+		var p z80.Register
+		p.SetU16(before)
+		p.SetU16(v)
+		if p.U16() != v || p.Hi != uint8(v>>8) || p.Lo != uint8(v) {
+			return fmt.Sprintf("SetU16(%04x) on a register holding %04x: Hi=%02x Lo=%02x", v, before, p.Hi, p.Lo)
+		}
+	}
 	r2 := z80.Register{Hi: uint8(v >> 8), Lo: uint8(v)}
 	if r2.U16() != v {
 		return fmt.Sprintf("Register{%02x,%02x}.U16()=%04x", r2.Hi, r2.Lo, r2.U16())
@@ -293,7 +302,7 @@ func TestC16(t *testing.T) {
 	defer finish(t, col)
 	col.Exhaustive = true
 	col.Rule = "complete enumeration: {GetFlag,SetFlag,ResetFlag} x 256 masks x 256 F x 256 A (via GPR and via CPU; one combination in 16 also on a struct copy of a used CPU value, after executed EX AF,AF' / EXX, and called from inside an IO.In / Memory.Get callback during a Step), 8 constants, " +
-		"SetU16/U16/Hi/Lo x 65536 values; non-trivial = mask not in {0x00,0xFF} (flag ops) or any register value; distinct by construction"
+		"SetU16/U16/Hi/Lo x 65536 values (each also on registers holding a neighbour of the new value, a value sharing one half with it, 0, 0xFFFF); non-trivial = mask not in {0x00,0xFF} (flag ops) or any register value; distinct by construction"
 
 	if m := c16Consts(); m != "" {
 		violation(t, "C16", "flag", c16Case{Op: "Consts"}, "Z80 bit positions", m)
